@@ -59,6 +59,11 @@ def r2(ctx: Ctx) -> None:
                 c, pol = band[0]
                 # not (|thr| <= |p - ref|)
                 ok = c[0] == "cmp" and c[1] == "<=" and not pol and _abs_of(c[2], lambda t: _is_thr(t, refs, r)) and _abs_of(c[3], lambda t: _is_dev(t, refs))
+            from ..kit import unknown_series
+
+            if not ok and unknown_series(*[c_ for c_, _, _ in p.conds]):
+                ctx.unrec(f, f.node, "a price is passed through unchanged only when it deviates from p0 by less than p0*r", "the reference price is read from something that stands in for the recorded series (not the series itself)", p.describe()[:160])
+                continue
             ctx.check(ok, f, f.node, "a price is passed through unchanged only when it deviates from p0 by less than p0*r", "not (|p0*r| <= |price - p0|) -> return order.price", p.describe()[:200])
             continue
         # clamp: min(max(price, lo), hi) or max(min(price, hi), lo)
@@ -81,6 +86,11 @@ def r2(ctx: Ctx) -> None:
         if lo is not None and hi is not None:
             ok = any(poly_of(_sub_ref(lo, rf)) == poly_of(("bin", "*", ("sym", "P0"), ("bin", "-", ("const", 1), r))) and poly_of(_sub_ref(hi, rf)) == poly_of(("bin", "*", ("sym", "P0"), ("bin", "+", ("const", 1), r))) for rf in refs)
             found = f"lo={short(lo)[:90]} hi={short(hi)[:90]}"
+        from ..kit import unknown_series
+
+        if not ok and unknown_series(ret):
+            ctx.unrec(f, f.node, "out-of-band limit prices are clamped to p0(1-r) .. p0(1+r), p0 = the given market's price at time 0", "the reference price is read from something that stands in for the recorded series (not the series itself)", found)
+            continue
         ctx.check(ok, f, f.node, "out-of-band limit prices are clamped to p0(1-r) .. p0(1+r), p0 = the given market's price at time 0", "min(max(price, p0*(1-r)), p0*(1+r))", found)
     ctx.require(n >= 3, f"{PLR}.get_limited_price: returning paths not found")
     # handler: the price written is the helper's result for the order's own market
